@@ -101,7 +101,7 @@ Print Assumptions C05_dec_col_all_missing.
 
 Theorem C05_dec_col_missing_base_nonzero_width : forall w wd n t,
   (2 <= w <= 64)%Z -> (1 <= wd <= 63)%Z ->
-  dec_col_num w n (ones (Z.to_nat w) ++ to_bits 6 (Z.to_N wd) ++ t) = Err EAssert.
+  dec_col_num w n (ones (Z.to_nat w) ++ to_bits 6 (Z.to_N wd) ++ t) = Err EBadColumn.
 Proof. exact dec_col_missing_base_nonzero_width. Qed.
 Print Assumptions C05_dec_col_missing_base_nonzero_width.
 
